@@ -3348,21 +3348,7 @@ LEFT JOIN conversions ON {join_condition}{group_by}{order_clause}{limit_clause}
             # Need to rewrite filters to use pre-agg column names
             rewritten_filters = []
             for f in filters:
-                # Replace model_cte. with nothing (pre-agg table doesn't use CTEs)
-                # Also replace model. with nothing
-                rewritten_f = f.replace(f"{model.name}_cte.", "").replace(f"{model.name}.", "")
-
-                # If this filter references the time dimension, map it to the pre-agg time column
-                # e.g., created_at -> created_at_day for daily pre-agg
-                if preagg.time_dimension and preagg.granularity:
-                    time_col_name = f"{preagg.time_dimension}_{preagg.granularity}"
-                    # Replace time dimension name with time column name
-                    import re
-
-                    # Match time dimension as a whole word (not part of another word)
-                    rewritten_f = re.sub(r"\b" + re.escape(preagg.time_dimension) + r"\b", time_col_name, rewritten_f)
-
-                rewritten_filters.append(rewritten_f)
+                rewritten_filters.append(self._rewrite_filter_for_preaggregation(f, model, preagg))
 
             where_clause = f"\nWHERE {self._join_conjuncts(rewritten_filters)}"
 
@@ -3401,6 +3387,40 @@ LEFT JOIN conversions ON {join_condition}{group_by}{order_clause}{limit_clause}
 FROM {from_clause}{where_clause}{group_by_clause}{order_by_clause}{limit_clause}"""
 
         return query
+
+    def _rewrite_filter_for_preaggregation(self, filter_expr: str, model, preagg) -> str:
+        """Rewrite a query filter so that it reads the columns of a pre-aggregation table.
+
+        Column references lose their ``model.`` / ``model_cte.`` qualifier (the rollup table is
+        queried directly) and a reference to the rollup's time dimension is mapped to its
+        time column (``created_at`` -> ``created_at_day``). Only column references are touched:
+        string literals that happen to contain the same text are data.
+        """
+        time_col_name = None
+        if preagg.time_dimension and preagg.granularity:
+            time_col_name = f"{preagg.time_dimension}_{preagg.granularity}"
+
+        try:
+            parsed = sqlglot.parse_one(filter_expr, dialect=self.dialect)
+        except Exception:
+            parsed = None
+
+        if parsed is not None:
+            for col in parsed.find_all(exp.Column):
+                if col.table in (model.name, f"{model.name}_cte"):
+                    col.set("table", None)
+                if time_col_name and not col.table and col.name == preagg.time_dimension:
+                    col.set("this", exp.to_identifier(time_col_name))
+            return parsed.sql(dialect=self.dialect)
+
+        # Not parseable as an expression: textual rewrite
+        import re
+
+        rewritten = filter_expr.replace(f"{model.name}_cte.", "").replace(f"{model.name}.", "")
+        if time_col_name:
+            # Match time dimension as a whole word (not part of another word)
+            rewritten = re.sub(r"\b" + re.escape(preagg.time_dimension) + r"\b", time_col_name, rewritten)
+        return rewritten
 
     def _generate_instrumentation_comment(
         self, models: list[str], metrics: list[str], dimensions: list[str], used_preagg: bool = False
